@@ -408,3 +408,52 @@ func catch(f func()) (p any) {
 	f()
 	return nil
 }
+
+// RunFuzz is the coverage-guided stage of the thorough tier: the same generator and the same
+// check as the rapid stage, but with the generator's random choices read from the bytes the
+// native Go fuzzer mutates (rapid.MakeFuzz), so that inputs reaching new code are kept and
+// mutated further. A failing case is written as the usual JSON replay file.
+func RunFuzz[C any](f *testing.F, p Prop[C]) {
+	env := getenv()
+	r := &runner[C]{p: p, env: env, stage: "genfuzz"}
+	// Every fuzz worker is a process of its own; each dumps its recorder when it is told to stop.
+	r.rec = rec.New(p.ID, "genfuzz", os.Getpid())
+	stop := r.watchdog()
+	f.Cleanup(func() {
+		close(stop)
+		if os.Getenv("VERIF_OUT") != "" && r.rec.Evaluations() > 0 {
+			r.rec.Dump(env.out)
+		}
+	})
+	// Seed inputs: deterministic pseudo-random byte strings of several lengths (every 8 bytes
+	// are one 64-bit choice of the generator), so that the fuzzer starts from complete cases.
+	x := uint64(0x9e3779b97f4a7c15)
+	next := func() uint64 {
+		x += 0x9e3779b97f4a7c15
+		z := x
+		z = (z ^ (z >> 30)) * 0xbf58476d1ce4e5b9
+		z = (z ^ (z >> 27)) * 0x94d049bb133111eb
+		return z ^ (z >> 31)
+	}
+	for _, n := range []int{64, 256, 1024, 4096, 16384, 65536} {
+		for rep := 0; rep < 6; rep++ {
+			b := make([]byte, n)
+			for i := 0; i+8 <= n; i += 8 {
+				v := next()
+				if rep%2 == 1 {
+					v >>= 56 - uint(i%7)*8 // small choices as well as full-range ones
+				}
+				for k := 0; k < 8; k++ {
+					b[i+k] = byte(v >> (8 * k))
+				}
+			}
+			f.Add(b)
+		}
+	}
+	f.Fuzz(rapid.MakeFuzz(func(rt *rapid.T) {
+		c := p.Gen(rt, true)
+		if err := r.eval(c, false); err != nil {
+			rt.Fatalf("%v", err)
+		}
+	}))
+}
